@@ -356,13 +356,13 @@ pub fn arb_case() -> impl Strategy<Value = Case> {
 pub fn run(ctx: &Ctx) {
     ctx.rule("applications with 0..4 host sub-apps (host patterns literal / *.x / x.* / infix / adjacent stars, never exactly `*`) with 0..6 HTTP routes and 0..3 WebSocket routes each plus a default app, patterns over a tiny segment alphabet so that they overlap and shadow; 30 requests per application over Host {absent, exact, wildcard-matching, with port, non-matching, matching several hosts} x paths x optional query x plain/WebSocket upgrade; every handler answers with its identity; the plain requests are sent once each on a fresh connection and again in groups of 2..5 on keep-alive connections (the choice must not depend on earlier requests of the connection); oracle = reference router (reference glob matcher + first host, first route, else default, else 404 / closed). Non-trivial = more than one candidate host or route matches, or the host matches but falls through to the default app; distinct by (application, request)");
     ctx.assume("requests go over real loopback sockets to a real App (threaded runtime); WebSocket handlers write their identity on the raw stream");
-    let cases = ctx.tier.pick(4800u32, 40000u32);
+    let cases = ctx.share(ctx.tier.pick(4800u32, 40000u32)).max(16);
     let nshards = 16;
     crate::engine::shards(nshards, |i| {
         pt::run(
             ctx,
             "app",
-            pt::Opts::new(cases / nshards as u32).salt(400 + i as u64).shrink_iters(150),
+            pt::Opts::new(cases / nshards as u32).salt(ctx.salt_of(400 + i as u64)).shrink_iters(150),
             arb_case(),
             |c| serde_json::to_value(c).unwrap(),
             |c| {
